@@ -1114,3 +1114,133 @@ Proof.
     split; [rewrite Hg2, Hg1; exact Hgr|].
     rewrite add_each_hdrs in Hall2. exact Hall2.
 Qed.
+
+Lemma map_replace_nth : forall {A B} (f : A -> B) l i x,
+  map f (replace_nth l i x) = replace_nth (map f l) i (f x).
+Proof.
+  intros A B f l. induction l as [|a l IH]; intros i x; [destruct i; reflexivity|].
+  destruct i; cbn [replace_nth map]; [reflexivity|]. now rewrite IH.
+Qed.
+
+Lemma replace_nth_length : forall {A} (l : list A) i x, length (replace_nth l i x) = length l.
+Proof.
+  intros A l. induction l as [|a l IH]; intros i x; [destruct i; reflexivity|].
+  destruct i; cbn [replace_nth length]; [reflexivity|]. now rewrite IH.
+Qed.
+
+Lemma pkts_of_nth : forall cfgs pss i c ps,
+  nth_error cfgs i = Some c -> nth_error pss i = Some ps ->
+  nth_error (pkts_of cfgs pss) i = Some ([hdr_id c; hdr_tags c] ++ data_pkts 0 ps).
+Proof.
+  induction cfgs as [|c0 cfgs IH]; intros pss i c ps Hc Hp; [destruct i; discriminate|].
+  destruct pss as [|ps0 pss]; [destruct i; discriminate|].
+  destruct i as [|i]; cbn [nth_error pkts_of] in *.
+  - injection Hc as ->. injection Hp as ->. reflexivity.
+  - apply IH; assumption.
+Qed.
+
+Lemma pkts_of_replace : forall cfgs pss i c ps',
+  nth_error cfgs i = Some c ->
+  pkts_of cfgs (replace_nth pss i ps')
+  = replace_nth (pkts_of cfgs pss) i ([hdr_id c; hdr_tags c] ++ data_pkts 0 ps').
+Proof.
+  induction cfgs as [|c0 cfgs IH]; intros pss i c ps' Hc; [destruct i; discriminate|].
+  destruct pss as [|ps0 pss]; [destruct i; reflexivity|].
+  destruct i as [|i]; cbn [nth_error pkts_of replace_nth] in *.
+  - injection Hc as ->. reflexivity.
+  - f_equal. apply IH. exact Hc.
+Qed.
+
+Lemma all3_lengths : forall {A B C} (P : A -> B -> C -> Prop) la lb lc,
+  all3 P la lb lc -> length la = length lb /\ length lb = length lc.
+Proof. intros. induction H as [| ? ? ? ? ? ? _ _ [IH1 IH2]]; cbn [length]; split; congruence. Qed.
+
+(* the accepted packets per track after one more WriteRTP on track i *)
+Definition upd_pss (pss : list (list (list N * N))) (i : nat) (p : list N) :=
+  match p with
+  | [] => pss
+  | _ => match opus_sample_count p, nth_error pss i with
+         | Ok n, Some ps => replace_nth pss i (ps ++ [(p, n)])
+         | _, _ => pss
+         end
+  end.
+
+Lemma multi_write_inv : forall w cfgs pss log i p,
+  minv w cfgs pss log ->
+  exists log',
+    minv (fst (multi_write w i p)) cfgs (upd_pss pss i p) log' /\
+    mw_rewriter (fst (multi_write w i p)) = mw_rewriter w.
+Proof.
+  intros w cfgs pss log i p Hinv.
+  destruct p as [|b p'].
+  - exists log. split; [exact Hinv | reflexivity].
+  - unfold multi_write, upd_pss.
+    destruct (start_locked_inv w cfgs pss log Hinv) as (w1 & log1 & Hs & Hst1 & Hrw1 & Hinv1 & _).
+    rewrite Hs.
+    destruct Hinv1 as (Hout & Hnd & Hlen & Hgr & Hall). rewrite Hst1 in Hall.
+    destruct (all3_lengths _ _ _ _ Hall) as (Hl1 & Hl2).
+    destruct (nth_error (mw_tracks w1) i) as [tr|] eqn:Etr.
+    + destruct (all3_nth _ _ _ _ i tr Hall Etr) as (cfg & pkts & Hcfg & Hpk & (Hstat & HR)).
+      assert (Hps : exists ps, nth_error pss i = Some ps).
+      { destruct (nth_error pss i) eqn:E; [eauto|]. apply nth_error_None in E.
+        assert (i < length cfgs)%nat by (apply nth_error_Some; congruence). lia. }
+      destruct Hps as (ps & Hps). rewrite Hps.
+      rewrite (pkts_of_nth cfgs pss i cfg ps Hcfg Hps) in Hpk. injection Hpk as <-.
+      assert (Hprev : tr_prev_granule tr = gsum 0 ps).
+      { assert (H1 : nth_error (map tr_prev_granule (mw_tracks w1)) i = Some (tr_prev_granule tr))
+          by (rewrite nth_error_map, Etr; reflexivity).
+        rewrite Hgr, nth_error_map, Hps in H1. cbn in H1. congruence. }
+      destruct (opus_sample_count (b :: p')) as [n | e |] eqn:Hn.
+      * destruct (write_opus_own (mw_rewriter w1) log1 tr _ (b :: p') n HR Hn)
+          as (pgs & tr' & Hw & Hst' & Hg' & HR').
+        rewrite Hout, Hw. cbn [fst mw_rewriter].
+        exists (log1 ++ tag (tr_serial tr) pgs). split; [| exact Hrw1].
+        unfold minv. cbn [mw_out mw_tracks mw_started mw_rewriter].
+        split; [reflexivity|]. split; [exact Hnd|].
+        split; [rewrite replace_nth_length; exact Hlen|].
+        split.
+        -- rewrite !map_replace_nth, Hgr. f_equal.
+           destruct (data_pkts_snoc ps 0 (b :: p') n) as [_ Hsum]. rewrite Hsum, Hg', Hprev. reflexivity.
+        -- rewrite (pkts_of_replace cfgs pss i cfg _ Hcfg).
+           eapply all3_update; [exact Hall | |].
+           ++ intros j a bb c Hne Ha Hb Hc (Hs2 & HR2). split; [exact Hs2|].
+              apply R_other; [exact HR2|]. intros E.
+              pose proof (all3_serials _ _ _ _ _ Hall) as Hser.
+              assert (Hnd' : NoDup (map tr_serial (mw_tracks w1))) by (rewrite Hser; exact Hnd).
+              rewrite NoDup_nth_error in Hnd'.
+              apply Hne. symmetry. apply Hnd'.
+              ** rewrite map_length. apply nth_error_Some. congruence.
+              ** rewrite !nth_error_map, Etr, Ha. cbn. congruence.
+           ++ intros bb Hbb. rewrite Hcfg in Hbb. injection Hbb as <-.
+              split; [eapply same_static_trans; eauto|].
+              destruct (data_pkts_snoc ps 0 (b :: p') n) as [Hd _]. rewrite Hd, app_assoc, <- Hprev.
+              exact HR'.
+      * rewrite (write_opus_err _ _ _ _ e Hn). cbn [fst]. exists log1. split; [| exact Hrw1].
+        unfold minv. rewrite Hst1. auto.
+      * exfalso. exact (opus_sample_count_no_panic _ Hn).
+    + cbn [fst].
+      assert (Hnone : nth_error pss i = None).
+      { apply nth_error_None. apply nth_error_None in Etr. lia. }
+      rewrite Hnone. exists log1. split; [| exact Hrw1].
+      replace (match opus_sample_count (b :: p') with Ok _ => pss | _ => pss end) with pss
+        by (destruct (opus_sample_count (b :: p')); reflexivity).
+      unfold minv. rewrite Hst1. auto.
+Qed.
+
+Definition multi_run (w : mwriter) (ops : list (nat * list N)) : mwriter :=
+  fold_left (fun w op => fst (multi_write w (fst op) (snd op))) ops w.
+Definition run_pss (pss : list (list (list N * N))) (ops : list (nat * list N)) :=
+  fold_left (fun pss op => upd_pss pss (fst op) (snd op)) ops pss.
+
+Lemma multi_run_inv : forall ops w cfgs pss log,
+  minv w cfgs pss log ->
+  exists log', minv (multi_run w ops) cfgs (run_pss pss ops) log' /\
+               mw_rewriter (multi_run w ops) = mw_rewriter w.
+Proof.
+  induction ops as [|[i p] ops IH]; intros w cfgs pss log Hinv.
+  - exists log. split; [exact Hinv | reflexivity].
+  - unfold multi_run, run_pss. cbn [fold_left fst snd].
+    destruct (multi_write_inv w cfgs pss log i p Hinv) as (log1 & H1 & Hrw1).
+    destruct (IH _ cfgs _ log1 H1) as (log2 & H2 & Hrw2).
+    exists log2. split; [exact H2 |]. unfold multi_run in Hrw2. rewrite Hrw2. exact Hrw1.
+Qed.
